@@ -175,6 +175,12 @@ ROUND11 = {
  "C20": "The param cases have a configured param with three values that each select further series: every probe must carry all of them and the estimate must be that of the full exposition.",
 }
 
+ROUND12 = {
+ "C10": "One check in four also polls /runtimeinfo/ while the head-series query (Prometheus' TSDB API) fails: an answer, if any, must be true about idleness.",
+ "C12": "Plus 4 cases with a scrape_timeout of 1.9 s / 2.5 s and a target that answers completely after 1.3 s / 2.2 s: a delivery that breaks off before the configured timeout has passed is a violation.",
+ "C17": "Job names include two that differ in case only (ja, JA).",
+}
+
 NOT_YET = {
 }
 
@@ -203,7 +209,7 @@ def main():
             "evidence_file": "/verif/evidence/%s.json" % pid,
             "replay_cmd_template": "./bin/vcheck replay {path}",
             "engine": c["engine"],
-            "level_claimed": {"category": c["level"], "text": (c["text"] + " " + ROUND8.get(pid, "") + " " + ROUND9.get(pid, "") + " " + ROUND10.get(pid, "") + " " + ROUND11.get(pid, "")).strip(), "design_ref": c["ref"]},
+            "level_claimed": {"category": c["level"], "text": (c["text"] + " " + ROUND8.get(pid, "") + " " + ROUND9.get(pid, "") + " " + ROUND10.get(pid, "") + " " + ROUND11.get(pid, "") + " " + ROUND12.get(pid, "")).strip(), "design_ref": c["ref"]},
             "level_note": c["note"],
             "technique": c["technique"],
         })
